@@ -567,7 +567,7 @@ def report(prop, mod, tier, results, wall):
         'level': 'model_checking',
         'coverage': {
             'states': tot('paths'),
-            'transitions': tot('decisions'),
+            'transitions': tot('decisions') + tot('obligations'),
             'traces_validated_against_impl': tot('validated'),
             'samples': samples if samples else [{'note': 'no path completed'}],
             'obligations': tot('obligations'),
@@ -590,7 +590,8 @@ def report(prop, mod, tier, results, wall):
                           'wall_s': r.get('wall', 0), 'note': r['note']} for r in results][:400],
             'exhaustive': False,
             'explanation': 'symbolic execution of the real /repo code (symx) with z3 deciding every '
-                           'path; states=paths explored, transitions=symbolic branch decisions',
+                           'path; states=paths explored, transitions=symbolic branch decisions taken plus obligation '
+                           'queries decided',
             'verdict': {0: 'holds within bounds', 1: 'violation', 2: 'inconclusive',
                         3: 'engine error'}[exit_code],
         },
